@@ -190,6 +190,14 @@ def main(argv=None):
     native_fail = []
     for spec in getattr(mod, "NATIVE", []):
         payload = dict(tier=tier, seed=seed, **spec.get("args", {}))
+        if spec.get("prepare"):
+            # payload computed on this side (e.g. the interpreter run in concrete mode for the encoder validation)
+            modn, _, fn = spec["prepare"].partition(":")
+            try:
+                payload.update(getattr(importlib.import_module(modn), fn)(seed=seed, n=8 if tier == "quick" else 60))
+            except Exception as e:  # noqa: BLE001
+                errors.append(f"native {spec['name']}: preparing the payload failed: {type(e).__name__}: {e}")
+                continue
         try:
             rep = run_native(spec["harness"], payload, timeout=spec.get("timeout", 1800))
         except subprocess.TimeoutExpired:
